@@ -176,6 +176,8 @@ pub fn exec(spec: &Spec, r: &mut RunResult) {
                 r.bump("c11.schedules_that_interrupted", 1);
             }
             let mut bad: Vec<(String, String)> = vec![];
+            // how a deviating later answer relates to the fresh one (signature tag)
+            let mut later_relation = "";
             match &lim {
                 Out::Ans(ls) => {
                     if let Err(why) = cmp::safe_approximation(ls, &full_sol) {
@@ -294,6 +296,12 @@ pub fn exec(spec: &Spec, r: &mut RunResult) {
                         r.bump("c11.deviation_also_without_interruption_attributed_to_history", 1);
                         break;
                     }
+                    if let (Out::Ans(a), Out::Ans(f)) = (&out, &fresh) {
+                        let amb = |s: &Sol| s.as_ref().map(|x| x.is_ambig()).unwrap_or(false);
+                        if (amb(a) || amb(f)) && cmp::contradiction(a, f).is_none() {
+                            later_relation = if amb(a) && amb(f) { "+guidance-differs" } else { "+unique-vs-ambig" };
+                        }
+                    }
                     bad.push((
                         "later-differs-from-fresh".into(),
                         format!("follow-up #{} {} {:?} on `{}` after {:?}: `{}` but a fresh solver answers `{}`", oi, cfg.name(), op.kind, spec.world.goals[op.goal], sched, fmt_out(&out), fmt_out(&fresh)),
@@ -308,7 +316,7 @@ pub fn exec(spec: &Spec, r: &mut RunResult) {
                 // record each class once per run, with the schedule that produced it
                 if !r.violations.iter().any(|v| v.class == class) {
                     let mut v = crate::run::Violation { class: class.clone(), detail: format!("schedule {:?}: {}", sched, detail), sig: None };
-                    v.sig = Some(format!("{}:{}{}", cfg0.kind(), class, static_tags(&spec.world, prim.goal)));
+                    v.sig = Some(format!("{}:{}{}{}", cfg0.kind(), class, static_tags(&spec.world, prim.goal), if class == "later-differs-from-fresh" { later_relation } else { "" }));
                     r.violations.push(v);
                     // remember the offending schedule for the replay spec
                     if r.pin.is_none() {
